@@ -153,7 +153,7 @@ PROPS = {
         'shrink': {},
         'assumptions': [
             "partial: the accept loops are modelled above the per-connection functions (Model/Modes.v); connections are independent (no more open connections than workers); thread scheduling inside a mode is covered for epoll by C14/C15",
-            "recorded finding F28: in epoll mode connections that are idle when the setup hook answers StopAccepting are abandoned without teardown; the harness histories close every connection before stopping",
+            "repaired finding F28 (bad9a95): after StopAccepting serve_epoll goes on serving the connections it has taken on and returns when they have ended; histories with connections kept open across the stop check exactly that",
         ],
     },
     'C17': {
@@ -178,7 +178,7 @@ PROPS = {
         'shrink': {},
         'assumptions': [
             "as C14; memory safety of the raw pointers is proved as 'every enabled step of every reachable model state satisfies its safety obligation' and observed on the code through the replay of real logs",
-            "recorded finding F25: records are leaked (C15_no_leak_refuted); descriptor release is proved and observed",
+            "repaired finding F25 (deb6e4a): workers hand the records of closed connections back to the loop (graveyard), which frees them after each batch and at least once a second; C15_no_leak / C15_ended_reclaimed; every run checks accepted = freed against the allocator",
         ],
     },
 }
